@@ -52,12 +52,70 @@ def iter_both(L, q):
     return fwd, rev, I.call('Qualifiers::len', [qr]), I.call('Qualifiers::is_empty', [qr])
 
 
+ITER_BASE = {'next', 'next_back', 'size_hint'}
+
+
+def iter_overrides(I, type_name):
+    """methods of Iterator / DoubleEndedIterator / ExactSizeIterator that the crate overrides for one of its iterator types (read off the MIR)"""
+    out = []
+    for imp in I.prog.impls:
+        if imp.trait is None or imp.trait[1] not in ('Iterator', 'DoubleEndedIterator', 'ExactSizeIterator'):
+            continue
+        if imp.self_ty[0] != 'adt' or imp.self_ty[1].split('::')[-1] != type_name:
+            continue
+        out += [(imp.trait[1], m) for m in imp.methods if m not in ITER_BASE]
+    return out
+
+
+def chk_iter_overrides(L, q, fwd, what):
+    """an overridden adaptor method must behave like std's default, which is defined through next / next_back; an override without a
+    reference semantics here is reported as unsupported (exit 2), never passed over"""
+    I = L.I
+    qr = Ref([q], 0)
+    n = len(fwd)
+    for ty, ctor in (('Iter', 'Qualifiers::iter'), ('IterMut', 'Qualifiers::iter_mut')):
+        for tr, meth in iter_overrides(I, ty):
+            name = "<qualifiers::%s<'_> as %s>::%s" % (ty, tr, meth)
+            nxt = "<qualifiers::%s<'_> as Iterator>::next" % ty
+
+            def item(o):
+                return None if o.variant == 'None' else (list(sbytes(o.fields[0].fields[0])), list(sbytes(o.fields[0].fields[1])))
+            if meth in ('nth', 'nth_back'):
+                for k in range(n + 1):
+                    it = I.call(ctor, [qr])
+                    got = item(I.call(name, [Ref([it], 0), k]))
+                    rest = item(I.call(nxt, [Ref([it], 0)]))
+                    seq = fwd if meth == 'nth' else fwd[::-1]
+                    want = seq[k] if k < n else None
+                    # after nth(k) the front continues at k+1; after nth_back(k) the front is untouched unless everything was consumed
+                    want_rest = (fwd[k + 1] if k + 1 < n else None) if meth == 'nth' else (fwd[0] if k + 1 < n else None)
+                    for g, w in ((got, want), (rest, want_rest)):
+                        if (g is None) != (w is None):
+                            L.fail('%s: %s::%s(%d) does not behave like repeated next / next_back' % (what, ty, meth, k))
+                        elif g is not None:
+                            L.check('%s: %s::%s == default built on next / next_back' % (what, ty, meth), obs_term_eq([list(g)], [list(w)]))
+            elif meth in ('count', 'len'):
+                it = I.call(ctor, [qr])
+                if I.call(name, [it] if meth == 'count' else [Ref([it], 0)]) != n:
+                    L.fail('%s: %s::%s differs from the number of entries' % (what, ty, meth))
+            elif meth == 'last':
+                it = I.call(ctor, [qr])
+                got = item(I.call(name, [it]))
+                if (got is None) != (n == 0):
+                    L.fail('%s: %s::last disagrees with iteration' % (what, ty))
+                elif got is not None:
+                    L.check('%s: %s::last == last entry' % (what, ty), obs_term_eq([list(got)], [list(fwd[-1])]))
+            else:
+                raise Unsupported('%s overrides %s::%s, for which this check has no reference semantics' % (ty, tr, meth))
+
+
 def chk_content(L, q, want, what):
     fwd, rev, ln, emp = iter_both(L, q)
     if ln != len(want) or emp != (len(want) == 0) or len(fwd) != len(want) or len(rev) != len(want):
         L.fail('%s: length / iteration count differs from the reference map' % what)
         return
     L.check('%s: forward iteration == reference content' % what, obs_term_eq([list(x) for x in fwd], [list(x) for x in want]))
+    chk_iter_overrides(L, q, fwd, what)
     L.check('%s: reverse iteration == reversed reference content' % what, obs_term_eq([list(x) for x in rev], [list(x) for x in want[::-1]]))
     # invariant: keys valid lower-case, strictly ascending
     prev = None
@@ -306,6 +364,14 @@ def confirm(v, resp):
         return '%s(%r): content is %r, the reference map has %r' % (op, bytes(key), [(bytes(k), bytes(x)) for k, x in got_items], [(bytes(k), bytes(x)) for k, x in want_items])
     if [(list(bytes.fromhex(k)), list(bytes.fromhex(x))) for k, x in resp['content']['rev']] != want_items[::-1]:
         return 'reverse iteration disagrees with the reference map'
+    w = resp['content'].get('walks')
+    if w:
+        fw = resp['content']['items']
+        for name, want in (('nth', fw), ('mut_nth', fw), ('mut_fwd', fw), ('into', fw), ('nth_back', fw[::-1]), ('mut_nth_back', fw[::-1]), ('mut_rev', fw[::-1])):
+            if w[name] != want:
+                return 'walking the collection with %s gives %r, iteration gives %r' % (name, w[name], want)
+        if any(w[k] != len(fw) for k in ('count', 'mut_count', 'exact_len', 'size_hint')) or w['last'] != (fw[-1] if fw else None) or not w['beyond_is_none']:
+            return 'count / len / size_hint / last / nth beyond the end disagree with iteration: %r' % w
     from mirsym.explore import concretize, subset_match
     class M:
         def eval(self, *a, **k):
